@@ -101,8 +101,10 @@ fn spawn_child(sub: &str) -> Child {
     std::thread::spawn(move || {
         let mut rd = BufReader::new(out);
         loop {
-            let mut l = String::new();
-            match rd.read_line(&mut l) { Ok(0) | Err(_) => { let _ = s.send(None); break } Ok(_) => { if s.send(Some(l)).is_err() { break } } }
+            // bytes, not read_line: a panic message of the code under test may quote a string that is not UTF-8
+            let mut raw = Vec::new();
+            match rd.read_until(b'\n', &mut raw) { Ok(0) | Err(_) => { let _ = s.send(None); break }
+                Ok(_) => { if s.send(Some(String::from_utf8_lossy(&raw).into_owned())).is_err() { break } } }
         }
     });
     Child { proc, tx, rx }
@@ -133,6 +135,7 @@ fn parent(sub: &str, inp: &str, outp: &str, jobs: usize, fresh: bool, timeout_ms
                 let res = match got {
                     Ok(Some(l)) => l.trim_end().to_string(),
                     Ok(None) => {
+                        let _ = c.proc.kill();
                         let st = c.proc.wait().ok();
                         let how = st.map(|s| { use std::os::unix::process::ExitStatusExt; match s.signal() { Some(sig) => format!("signal {sig}"), None => format!("exit {}", s.code().unwrap_or(-1)) } }).unwrap_or_default();
                         child = None;
